@@ -882,11 +882,123 @@ def setup():
     return 2 if bad else 0
 
 
-def selftest():
-    log("selftest: not yet implemented")
-    return 0
+SPEC_OF_EV = {"start": "TraceHook", "same": "TraceHook", "expand": "TraceHook", "drop4": "TraceHook", "shiftcmp": "TraceHook",
+              "ops": "TraceOps", "cleanup": "TraceSteps"}
+HOOK_EVS = ("equal", "delete", "insert", "replace", "finish", "probe", "ret", "panic", "drift")
+
+
+def validate_mixed(trace, tag):
+    """Validate a trace that may mix record types: route every case to its trace spec."""
+    wd = WORK / tag
+    wd.mkdir(parents=True, exist_ok=True)
+    files = {}
+    cur = None
+    with open(trace) as f:
+        for line in f:
+            ev = core.EV_RE.search(line).group(1)
+            if ev == "replay_meta":
+                continue
+            if ev not in HOOK_EVS:
+                cur = SPEC_OF_EV.get(ev, "TraceCalls")
+            if cur is None:
+                continue
+            files.setdefault(cur, []).append(line)
+    rejects = []
+    for spec, lines in files.items():
+        p = wd / f"mixed_{spec}.ndjson"
+        p.write_text("".join(lines))
+        res = core.validate(spec, p, tag)
+        rejects += [(spec, c, cl, ln, lines[ln - 1]) for c, cl, ln in res["rejects"]]
+    return rejects
 
 
 def replay(pid, path):
-    log("replay: not yet implemented")
-    return 2
+    """Re-run one recorded case against the current /repo and show the verdict of the specification."""
+    wd = WORK / pid
+    wd.mkdir(parents=True, exist_ok=True)
+    meta = {}
+    with open(path) as f:
+        first = f.readline()
+        if '"replay_meta"' in first:
+            meta = json.loads(first)
+    out = wd / "rerun.ndjson"
+    rc, err = core.run_sv(["rerun", "x", "--in", path, "--out", out])
+    if rc != 0:
+        print(f"VIOLATION property={pid} replay={path}   # the harness aborted or hung while re-running the case (rc={rc})")
+        return 1
+    print(f"# replay of {path} (recorded clauses: {meta.get('clauses')}) against the current /repo")
+    for line in open(out):
+        print("  " + (line.strip() if len(line) < 400 else line[:400] + " ..."))
+    rej = validate_mixed(out, pid)
+    if not rej:
+        print(f"OK property={pid} replay: the re-run case is accepted by the specification")
+        return 0
+    for spec, c, cl, ln, line in rej:
+        print(f"REJECTED by {spec} at line {ln}: clause(s) {cl}")
+    print(f"VIOLATION property={pid} replay={path}")
+    return 1
+
+
+def selftest():
+    """Binding self-test: corrupt one field / drop one event of a recorded trace and require
+    TLC to reject exactly there, and to accept the uncorrupted trace."""
+    core.build_harness()
+    wd = WORK / "selftest"
+    wd.mkdir(parents=True, exist_ok=True)
+    failures = 0
+
+    def expect(name, trace, want_reject):
+        nonlocal failures
+        rej = validate_mixed(trace, "selftest")
+        ok = bool(rej) == want_reject
+        log(f"[selftest] {name}: {'rejected' if rej else 'accepted'} ({len(rej)} rejection(s)) -> {'ok' if ok else 'UNEXPECTED'}")
+        if not ok:
+            failures += 1
+
+    # hook traces
+    t = wd / "c01.ndjson"
+    core.run_sv(["drive", "c01", "--out", t, "--tier", "quick", "--seed", 7, "--nrand", 50])
+    lines = open(t).read().splitlines(True)[-3000:]
+    while lines and core.EV_RE.search(lines[0]).group(1) not in ("start", "shiftcmp"):
+        lines.pop(0)
+    while lines and core.EV_RE.search(lines[-1]).group(1) not in ("ret", "panic", "shiftcmp"):
+        lines.pop()
+    (wd / "h_ok.ndjson").write_text("".join(lines))
+    expect("hook trace as recorded", wd / "h_ok.ndjson", False)
+    idx = [i for i, l in enumerate(lines) if '"ev":"equal"' in l][3]
+    bad = list(lines)
+    r = json.loads(bad[idx]); r["o"] += 1; bad[idx] = json.dumps(r, separators=(",", ":")) + "\n"
+    (wd / "h_bad1.ndjson").write_text("".join(bad))
+    expect("hook trace with one corrupted index", wd / "h_bad1.ndjson", True)
+    idx = [i for i, l in enumerate(lines) if '"ev":"delete"' in l][5]
+    bad = lines[:idx] + lines[idx + 1:]
+    (wd / "h_bad2.ndjson").write_text("".join(bad))
+    expect("hook trace with one dropped event", wd / "h_bad2.ndjson", True)
+    idx = [i for i, l in enumerate(lines) if '"ev":"finish"' in l][10]
+    bad = lines[:idx] + [lines[idx]] + lines[idx:]
+    (wd / "h_bad3.ndjson").write_text("".join(bad))
+    expect("hook trace with a duplicated finish", wd / "h_bad3.ndjson", True)
+    # ops records
+    t = wd / "ops.ndjson"
+    core.run_sv(["drive", "ops", "--out", t, "--tier", "quick", "--seed", 7, "--nrand", 20, "--deadline", 0])
+    lines = [l for l in open(t).read().splitlines(True)[:1500]]
+    recs = [json.loads(l) for l in lines]
+    good = [r for r in recs if r["swaps"] == 0]
+    (wd / "o_ok.ndjson").write_text("".join(json.dumps(r, separators=(",", ":")) + "\n" for r in good))
+    expect("captured ops as recorded (cases without swaps)", wd / "o_ok.ndjson", False)
+    k = next(i for i, r in enumerate(good) if len(r["ops"]) >= 3)
+    good[k]["ops"][1][2] += 1
+    (wd / "o_bad.ndjson").write_text("".join(json.dumps(r, separators=(",", ":")) + "\n" for r in good))
+    expect("captured ops with one corrupted length", wd / "o_bad.ndjson", True)
+    # call records
+    t = wd / "c12.ndjson"
+    core.run_sv(["drive", "c12", "--out", t, "--tier", "quick", "--seed", 7])
+    recs = [json.loads(l) for l in open(t).read().splitlines()[4000:4400]]
+    (wd / "g_ok.ndjson").write_text("".join(json.dumps(r, separators=(",", ":")) + "\n" for r in recs))
+    expect("grouping records as recorded", wd / "g_ok.ndjson", False)
+    k = next(i for i, r in enumerate(recs) if len(r["groups"]) >= 2)
+    recs[k]["groups"] = recs[k]["groups"][::-1]
+    (wd / "g_bad.ndjson").write_text("".join(json.dumps(r, separators=(",", ":")) + "\n" for r in recs))
+    expect("grouping record with groups out of order", wd / "g_bad.ndjson", True)
+    print("selftest: " + ("all binding checks behaved as expected" if not failures else f"{failures} UNEXPECTED result(s)"))
+    return 0 if not failures else 2
